@@ -27,7 +27,8 @@ RULE = ('datasets of 0..12 rows x every geometry in {padded_batch(bs in 1,2,3,4,
         'mime.mime / mime_lite.mime_lite (momentum base optimizer) and agnostic_federated_averaging (eg) run for 2 rounds on cohorts '
         'of empty / mixed / normal clients under 3 grads / domain batch geometries, every leaf of the new state finite and equal to the closed form; '
         'non-trivial = at least one real row and one padded row or >= 2 batches; distinct = distinct case JSON')
-TRUSTED = ['jax.grad is the gradient and is linear; it differentiates safe_div(a, n) with n constant as safe_div(grad a, n) (exercised on every case, not modelled)',
+TRUSTED = ['tools/lib/c06tr.py + tools/lib/qfun.py: the reading of the mask / regulariser arithmetic (jnp.vdot, jnp.sum, jnp.mean, len, jax.ops.segment_sum, `KEY in batch`, `regularizer is not None`) as NanQ terms',
+           'jax.grad is the gradient and is linear; it differentiates safe_div(a, n) with n constant as safe_div(grad a, n) (exercised on every case, not modelled)',
            'float32 sums of the generated dyadic values are exact; divisions round (compared within 2e-5*(1+|x|) inside Coq)',
            'harness-side exact per-example losses / partial derivatives of the least-squares model (Fractions)']
 ASSUMPTIONS = ['per-example losses and gradients of real AND padded rows are finite (type Q in the model); a NaN/inf loss on a padded row would leak through the multiplicative mask',
@@ -99,6 +100,7 @@ def _case(rng, n, reg):
 
 
 ALGO_PATTERNS = ['empty1', 'empty2', 'empty-then-empty', 'mixed', 'normal']
+ALGO_PATTERNS_MORE = ['empty3', 'single', 'all', 'mixed-tail', 'normal-then-empty', 'single-then-all']
 
 
 def _algo_case(rng, pattern, reg):
@@ -108,8 +110,11 @@ def _algo_case(rng, pattern, reg):
   a, b, cc = list(range(0, 3)), list(range(3, 6)), list(range(6, 9))
   if rng.random() < 0.5:
     c['dom'] = [rng.choice([0, 1]) for _ in range(9)]   # a domain without any example
-  r1 = {'empty1': [[]], 'empty2': [[], []], 'empty-then-empty': [[]], 'mixed': [[], a, []], 'normal': [a, b]}[pattern]
-  r2 = {'empty-then-empty': [[], []], 'mixed': [b, [], cc]}.get(pattern, [b, cc])
+  r1 = {'empty1': [[]], 'empty2': [[], []], 'empty-then-empty': [[]], 'mixed': [[], a, []], 'normal': [a, b],
+        'empty3': [[], [], []], 'single': [cc], 'all': [a, b, cc], 'mixed-tail': [a, b, []],
+        'normal-then-empty': [b, a], 'single-then-all': [b]}[pattern]
+  r2 = {'empty-then-empty': [[], []], 'mixed': [b, [], cc], 'empty3': [a], 'all': [cc, [], a], 'normal-then-empty': [[], []],
+        'single-then-all': [a, b, cc]}.get(pattern, [b, cc])
   c.update({'kind': 'algo', 'pattern': pattern, 'rounds': [r1, r2]})
   del c['geos'], c['split']
   return c
@@ -127,7 +132,7 @@ def generate(tier, rng):
     reps = 24
   # algorithm-level cases first: the REAL mime / mime_lite / agnostic_federated_averaging for 2 rounds
   for rep in range({'quick': 1, 'search': 6}.get(tier, 4)):
-    for pattern in ALGO_PATTERNS:
+    for pattern in ALGO_PATTERNS + ([] if tier == 'quick' else ALGO_PATTERNS_MORE):
       for reg in (False, True):
         yield _algo_case(rng, pattern, reg)
   for rep in range(reps):
@@ -386,14 +391,15 @@ def _encode_algo(case, obs):
   """Round 1 from a fresh state: the momentum buffer IS Mime's full-batch server gradient."""
   real, row, r, dr = _exact(case)
   items = []
-  for entry in obs['algos']['mime']:
-    tr = entry['rounds'][0]['trace']
-    if tr is None or not all(math.isfinite(v) for v in tr):
-      return None
-    for j in range(3):
-      cl = fw.clist([fw.clist([f'({fw.qlist(_cell_vals(case, real, row, cells, j + 1))}, {_mask(cells)})' for cells in clay])
-                     for clay in entry['layout1']])
-      items.append(f'(KMime {_oq(dr[j])} {cl}, {fw.qlist([tr[j]])})')
+  for kind, lite in (('mime', 'false'), ('mime_lite', 'true')):
+    for entry, lay in zip(obs['algos'][kind], obs['algos']['mime']):
+      tr = entry['rounds'][0]['trace']
+      if tr is None or not all(math.isfinite(v) for v in tr):
+        return None
+      for j in range(3):
+        cl = fw.clist([fw.clist([f'({fw.qlist(_cell_vals(case, real, row, cells, j + 1))}, {_mask(cells)})' for cells in clay])
+                       for clay in lay['layout1']])
+        items.append(f'(KMime {lite} {_oq(dr[j])} {cl}, {fw.qlist([tr[j]])})')
   return f'({fw.clist(items)}, tt)'
 
 
@@ -631,7 +637,7 @@ def encode(case, obs):
       for j in range(3):
         cl = fw.clist([fw.clist([f'({fw.qlist(_cell_vals(case, real, row, cells, j + 1))}, {_mask(cells)})' for cells in clay])
                        for clay in g['mime_layout']])
-        items.append(f'(KMime {_oq(dr[j])} {cl}, {fw.qlist([g["mime_server"][j]])})')
+        items.append(f'(KMime false {_oq(dr[j])} {cl}, {fw.qlist([g["mime_server"][j]])})')
       clay, co = g['mime_layout'][0], g['mime_clients'][0]
       j = 2
       bl = fw.clist([f'({fw.qlist(_cell_vals(case, real, row, cells, j + 1))}, {_mask(cells)})' for cells in clay])
